@@ -5,7 +5,7 @@
    generalize = px.Generalize, generic = px.GenericType) over Model/Lattice.v (`asg rx true` = GuardedIsAssignable
    + IsAssignable as the code is, `inst rx true` = IsInstance).  `rx` (Go regexp matching) is arbitrary. *)
 From Coq Require Import ZArith NArith Bool List.
-From PcoreV Require Import Model.Base Model.Ty Model.Lattice Model.Infer Model.InferHist Proofs.LatticeBasics Proofs.LatticeRule Proofs.InferProofs Proofs.InferCommon Proofs.InferInst Proofs.InferHistProofs
+From PcoreV Require Import Model.Base Model.Ty Model.Lattice Model.Infer Model.InferHist Model.InferAsk Proofs.LatticeBasics Proofs.LatticeRule Proofs.InferProofs Proofs.InferCommon Proofs.InferInst Proofs.InferHistProofs Proofs.InferAskProofs
   Proofs.LatticeTransSound Proofs.InferTransKeq Proofs.InferTransCommon Proofs.InferTransInst Proofs.InferTransDetailed.
 Import ListNotations.
 Open Scope Z_scope.
@@ -462,3 +462,84 @@ Example C04_history_nonvacuous :
   (* what the seeded change turned the first result into does not contain the value *)
   inst rx true (TArray (TArray (e [97; 98; 99; 101]%N) 1 3) 2 2) (nth 8 (vals_of ns) VUndef) = false.
 Proof. vm_compute. repeat split; reflexivity. Qed.
+
+(* ---- histories with the QUESTION of the property and with asserting / describing operations in between ---- *)
+(* Model/InferAsk.v: the operations above plus QAccepts T v (px.IsAssignable(T, px.DetailedValueType(v)) and
+   px.IsInstance(T, v)), QAssert T v (px.AssertInstance, which on failure computes and caches the detailed types on its
+   way to the message), QMismatch T v (px.MismatchError), QAssertType T a (px.AssertType).  For EVERY graph and EVERY
+   history of these: every returned type, every answer and every cached type is the pure function of the value the
+   object denotes and of the type operand - an assertion that failed on the value, or on a collection that holds it,
+   before the question changes nothing.  Assumption as for C04_history_pure: no operation writes into a type object it
+   is handed (types are values of `ty`); tied by the correspondence run (the cases_ask files) and the direct check. *)
+Theorem C04_history_ask_pure :
+  forall (rx : str -> str -> bool) (ns : list node) (ops : list qop),
+    wf_dag ns = true -> forallb (qop_ok ns) ops = true ->
+    (snd (fst (qrun rx ns ops)), snd (qrun rx ns ops)) = qspec_run rx ns ops /\
+    (forall i t, get_red (fst (fst (qrun rx ns ops))) i = Some t -> t = infer rx (nth i (vals_of ns) VUndef)) /\
+    (forall i t, get_det (fst (fst (qrun rx ns ops))) i = Some t -> t = infer_detailed rx (nth i (vals_of ns) VUndef)).
+Proof.
+  intros rx ns ops Hwf Hops. destruct (ask_pure rx ns Hwf ops Hops) as [H1 (_ & H2 & H3)].
+  split; [exact H1|]. split; [exact H2|exact H3].
+Qed.
+Print Assumptions C04_history_ask_pure.
+
+(* the clause, both directions, for the question put at the END of any such history (after whatever was inferred,
+   asserted, described): (a, b) = (T accepts the detailed type of v, v is an instance of T) as the history answers.
+   Guards: those of the single-operation theorems. *)
+Theorem C04_history_detailed_sound_partial :
+  forall (rx : str -> str -> bool) (ns : list node) (ops : list qop) (t : tref) (i : nat) (a b : bool),
+    wf_dag ns = true -> forallb (qop_ok ns) ops = true -> (i < length ns)%nat ->
+    let st := qrun rx ns ops in
+    let T := deref (snd (fst st)) t in
+    let v := nth i (vals_of ns) VUndef in
+    dv_ok2 rx v = true -> LatticeRule.rule_free T (infer_detailed rx v) = true ->
+    last (snd (qstep rx ns st (QAccepts t i))) (false, false) = (a, b) ->
+    a = true -> b = true.
+Proof.
+  intros rx ns ops t i a b Hwf Hops Hi st T v Hv Hr Hl Ha.
+  unfold st in Hl. rewrite (ask_at_end rx ns Hwf ops t i Hops Hi), last_snoc in Hl. injection Hl as <- <-.
+  exact (C04_detailed_sound_partial rx v T Hv Hr Ha).
+Qed.
+Print Assumptions C04_history_detailed_sound_partial.
+
+Theorem C04_history_detailed_complete_partial :
+  forall (rx : str -> str -> bool) (ns : list node) (ops : list qop) (t : tref) (i : nat) (a b : bool),
+    wf_dag ns = true -> forallb (qop_ok ns) ops = true -> (i < length ns)%nat ->
+    let st := qrun rx ns ops in
+    let T := deref (snd (fst st)) t in
+    let v := nth i (vals_of ns) VUndef in
+    cv_ok0 v = true -> cwf T = true ->
+    last (snd (qstep rx ns st (QAccepts t i))) (false, false) = (a, b) ->
+    b = true -> a = true.
+Proof.
+  intros rx ns ops t i a b Hwf Hops Hi st T v Hv Hc Hl Hb.
+  unfold st in Hl. rewrite (ask_at_end rx ns Hwf ops t i Hops Hi), last_snoc in Hl. injection Hl as <- <-.
+  exact (C04_detailed_complete_partial rx v T Hv Hc Hb).
+Qed.
+Print Assumptions C04_history_detailed_complete_partial.
+
+(* the history of the seeded change C04-m7: h = {'a'=>1,'b'=>'x'} (object 4) inside [h] (object 5); the detailed type is
+   inferred, the question is put, px.AssertInstance fails on h and on [h] against Struct types that name its keys, and the
+   question is put again with five types: the answers are those of the fresh value (the seeded change answered
+   (true, false) for Struct[{Optional[c]=>Integer}] and (false, true) for Struct[{a=>Integer,b=>String}]) *)
+Example C04_history_ask_nonvacuous :
+  let rx := fun _ _ => false in
+  let I := TInteger MinI MaxI in
+  let k := fun c : N => TStringVal [c] in
+  let ns := [NLeaf (VStr [97%N]); NLeaf (VInt 1); NLeaf (VStr [98%N]); NLeaf (VStr [120%N]); NHash [(0, 1); (2, 3)]%nat; NArr [4%nat]] in
+  let Sab := TStruct [([97%N], (k 97%N, I)); ([98%N], (k 98%N, TString))] in
+  let Sii := TStruct [([97%N], (k 97%N, I)); ([98%N], (k 98%N, I))] in
+  let Sc := TStruct [([99%N], (TOptional (k 99%N), I))] in
+  let ops := [QOp (ODetailed 4); QAccepts (RTy Sc) 4; QAssert (RTy Sii) 4; QAssert (RTy (TArray Sii 0 MaxI)) 5; QAssert (RTy Sab) 4;
+              QMismatch (RTy Sii) 5; QAssertType (RTy Sii) (RRes 0);
+              QAccepts (RTy Sc) 4; QAccepts (RTy Sab) 4; QAccepts (RTy Sii) 4; QAccepts (RTy (TArray Sab 1 1)) 5;
+              QAccepts (RTy (TVariant [Sc; TArray I 0 MaxI])) 4]%nat in
+  wf_dag ns = true /\ forallb (qop_ok ns) ops = true /\
+  nth 4 (vals_of ns) VUndef = VHash [(VStr [97%N], VInt 1); (VStr [98%N], VStr [120%N])] /\
+  snd (fst (qrun rx ns ops)) = [TStruct [([97%N], (k 97%N, TInteger 1 1)); ([98%N], (k 98%N, TStringVal [120%N]))]] /\
+  snd (qrun rx ns ops) = [(false, false); (false, false); (false, false); (true, true); (false, false);
+                          (false, false); (true, true); (false, false); (true, true); (false, false)] /\
+  get_det (fst (fst (qrun rx ns ops))) 5 <> None /\
+  dv_ok2 rx (nth 4 (vals_of ns) VUndef) = true /\ cv_ok0 (nth 4 (vals_of ns) VUndef) = true /\ cwf Sab = true /\
+  LatticeRule.rule_free Sc (infer_detailed rx (nth 4 (vals_of ns) VUndef)) = true.
+Proof. vm_compute. repeat split; try reflexivity. discriminate. Qed.
